@@ -373,6 +373,77 @@ class Pairing(T.NamedTuple):
     var: T.Optional[str]
 
 
+def split_ifexp_stmts(stmts: T.Sequence[ast.stmt]) -> T.List[ast.stmt]:
+    """Normal form for decision tables: a simple statement whose value operand is a conditional expression
+    (`yield a if c else b`, `return a if c else b`, `x = a if c else b`, `f(a if c else b)` as a statement with one argument)
+    is read as the if/else statement of its two instances; compound statements are rebuilt around their normalised bodies.
+    The input nodes are never modified (synthetic copies only), so node identities of the original body stay usable."""
+    import copy
+
+    def operand(st: ast.stmt) -> T.Optional[T.Tuple[ast.IfExp, T.Callable[[ast.expr], ast.stmt]]]:
+        def put(path: T.List[T.Tuple[str, T.Optional[int]]]) -> T.Callable[[ast.expr], ast.stmt]:
+            def make(v: ast.expr) -> ast.stmt:
+                new = copy.copy(st)
+                cur: ast.AST = new
+                for i, (fld, idx) in enumerate(path):
+                    last = i == len(path) - 1
+                    val = getattr(cur, fld)
+                    if idx is None:
+                        nxt = v if last else copy.copy(val)
+                        setattr(cur, fld, nxt)
+                    else:
+                        lst = list(val)
+                        nxt = v if last else copy.copy(lst[idx])
+                        lst[idx] = nxt
+                        setattr(cur, fld, lst)
+                    cur = nxt
+                return new
+            return make
+        if isinstance(st, ast.Expr) and isinstance(st.value, (ast.Yield, ast.Await)) and isinstance(st.value.value, ast.IfExp):
+            return st.value.value, put([('value', None), ('value', None)])
+        if isinstance(st, (ast.Return, ast.Assign, ast.AnnAssign, ast.AugAssign)) and isinstance(st.value, ast.IfExp):
+            return st.value, put([('value', None)])
+        if isinstance(st, ast.Expr) and isinstance(st.value, ast.Call) and len(st.value.args) == 1 and not st.value.keywords \
+                and isinstance(st.value.args[0], ast.IfExp) and not any(isinstance(x, (ast.Call, ast.NamedExpr, ast.Yield, ast.Await)) for x in ast.walk(st.value.func)):
+            return st.value.args[0], put([('value', None), ('args', 0)])
+        return None
+
+    out: T.List[ast.stmt] = []
+    for st in stmts:
+        hit = operand(st)
+        if hit is not None:
+            ie, make = hit
+            new_if = ast.If(test=ie.test, body=split_ifexp_stmts([make(ie.body)]), orelse=split_ifexp_stmts([make(ie.orelse)]))
+            ast.copy_location(new_if, st)
+            out.append(new_if)
+            continue
+        blocks = [f for f in ('body', 'orelse', 'finalbody') if isinstance(getattr(st, f, None), list) and getattr(st, f) and isinstance(getattr(st, f)[0], ast.stmt)]
+        if blocks and not isinstance(st, (ast.FunctionDef, ast.AsyncFunctionDef, ast.ClassDef)):
+            new_st = copy.copy(st)
+            changed = False
+            for f in blocks:
+                nb = split_ifexp_stmts(getattr(st, f))
+                if len(nb) != len(getattr(st, f)) or any(a is not b for a, b in zip(nb, getattr(st, f))):
+                    setattr(new_st, f, nb)
+                    changed = True
+            if isinstance(st, ast.Try):
+                nh = []
+                for h in st.handlers:
+                    hb = split_ifexp_stmts(h.body)
+                    if any(a is not b for a, b in zip(hb, h.body)):
+                        h2 = copy.copy(h)
+                        h2.body = hb
+                        nh.append(h2)
+                        changed = True
+                    else:
+                        nh.append(h)
+                new_st.handlers = nh  # type: ignore[attr-defined]
+            out.append(new_st if changed else st)
+            continue
+        out.append(st)
+    return out
+
+
 def strip_cast(e: ast.AST) -> ast.AST:
     """`T.cast(X, e)` / `typing.cast(X, e)` -> e (casts do nothing at run time)."""
     while isinstance(e, ast.Call) and call_name(e) in ('T.cast', 'typing.cast', 'cast') and len(e.args) == 2 and not e.keywords:
